@@ -298,13 +298,16 @@ pub struct Minimiser {
     pub budget: u64,
     /// observe only the final state of long candidates (sound: see exec::execute_mode)
     pub final_only: bool,
+    /// wall-clock safety stop for shrinking one violation; it bounds how small the replay gets,
+    /// never the verdict (the unminimised history is already a reproducing replay)
+    pub deadline: Instant,
 }
 
 impl Minimiser {
     fn fails(&mut self, t: &Op) -> bool {
         // cost of a candidate: every node of the tree (an entry with 40 000 sub-elements is dear)
         let cost = 50 + t.size() as u64;
-        if self.budget < cost {
+        if self.budget < cost || Instant::now() > self.deadline {
             self.budget = 0;
             return false;
         }
@@ -611,7 +614,7 @@ pub fn check(prop: &str, tier: &str, profile: &str, evidence_path: Option<String
             if f.v.prop != props || minimised >= 8 {
                 continue;
             }
-            let mut m = Minimiser { props, prop: f.v.prop, inv: f.v.inv, budget: 6_000_000, final_only: false };
+            let mut m = Minimiser { props, prop: f.v.prop, inv: f.v.inv, budget: 6_000_000, final_only: false, deadline: Instant::now() + std::time::Duration::from_secs(20) };
             let small = m.minimise_found(&f.trace, f.v.step);
             minimised += 1;
             let sig = (f.v.inv.to_string(), trigger_sig(&small));
